@@ -12,6 +12,9 @@ def add(pid, level, technique, text, note, design_ref=None):
     CHECKS[pid] = dict(level=level, technique=technique, text=text, note=note, design_ref=design_ref or f"DESIGN.md §2 {pid}")
 
 exec((HERE / "manifest_table.py").read_text())
+for _p in ["C%02d" % i for i in range(1, 31)]:
+    if _p not in CHECKS and _p not in NOT_APPLICABLE:
+        NOT_APPLICABLE[_p] = NA_PENDING
 
 props = [json.loads(l)["id"] for l in (HERE / "properties.jsonl").read_text().splitlines() if l.strip()]
 checks = []
